@@ -600,8 +600,11 @@ def annex_d(ctx, handlers):
                 continue
             st = fl.state_at(c)
             alg, mentions = _selection_outcome(ctx, fi, st.facts)
-            # sends that are not under the algorithm at all (SCF buffering branch) are outside this rule
+            # a send that is not under any outcome of the selection (e.g. the store-carry-forward branch) bypasses Annex D
             if not mentions:
+                ctx.ob("C07.annex-d", u.short(), f"emit@+{c.lineno - u.node.lineno}", False,
+                       "a packet is emitted on a path that never consulted the Annex D selection: it is forwarded whatever the ego and "
+                       "sender positions are (also when Annex D says DISCARD)", f"{u.module.rel}:{c.lineno}")
                 continue
             ok = bool(alg) and alg <= {"AREA_FORWARDING", "NON_AREA_FORWARDING"}
             ctx.ob("C07.annex-d", u.short(), f"emit@+{c.lineno - u.node.lineno}", ok,
